@@ -80,8 +80,8 @@ def oracle_silence(c, im):
 def run(ctx, model_ok):
     extra = []
     rng = ctx.rng
-    n = 90 if ctx.tier == "quick" else 900
-    cases = [gen_case(rng) for _ in range(n)]
+    n = 90 if ctx.tier == "quick" else 90 * 12
+    cases = [gen_case(rng) for _ in range(n + 8)]
     C01_gen = C01.gen_case
     it = iter(cases)
     C01.gen_case = lambda rng_, deferred=False, only_deferred=False: next(it)
